@@ -7,6 +7,7 @@ import (
 	"encoding/hex"
 	"fmt"
 	"reflect"
+	"strings"
 
 	kmip "github.com/ovh/kmip-go"
 	"github.com/ovh/kmip-go/payloads"
@@ -73,7 +74,9 @@ func show(enc string, b []byte) string {
 
 func integer(tag int, v int64) wire.Node { return wire.Node{Tag: tag, Type: wire.Integer, Int: v} }
 func enum(tag int, v int64) wire.Node    { return wire.Node{Tag: tag, Type: wire.Enumeration, Int: v} }
-func text(tag int, s string) wire.Node   { return wire.Node{Tag: tag, Type: wire.TextString, Bytes: []byte(s)} }
+func text(tag int, s string) wire.Node {
+	return wire.Node{Tag: tag, Type: wire.TextString, Bytes: []byte(s)}
+}
 func st(tag int, ch ...wire.Node) wire.Node {
 	if ch == nil {
 		ch = []wire.Node{}
@@ -261,7 +264,7 @@ func Spec() *core.Spec {
 			"9 object types in Get/Export responses and Register/Import requests plus unknown and mismatching object type codes; 50 standard attribute names x 10 TTLV value types; custom/arbitrary attribute names x 10 types; payload types registered for a vendor operation at run time, after the first decode, in a fresh process. " +
 			"Inputs are built by the independent generator (binary) or from the generic tree (XML/JSON). 8 goroutines decoding goroutine-specific custom attributes at once; a vendor operation NAME registered at run time followed by all built-in operations written by name by independent writers; distinct = distinct (class, operation/object/attribute, direction, encoding, value type) combinations",
 		Assumptions: []string{"operation/object/attribute type tables in harness/gen/ops.go are written from the KMIP 1.4 specification"},
-		Required:    []string{"reused_targets", "typed_responses.status2", "typed_responses.status3", "typed_payloads", "opaque_payloads", "objects_typed", "objects_unknown_rejected", "attrs_typed", "attrs_wrong_type_rejected", "attrs_opaque", "late_registration_decodes", "late_registration_named_decodes", "late_registration_object_decodes", "re_registration_decodes", "concurrent_opaque_decodes"},
+		Required:    []string{"reused_targets", "typed_responses.status2", "typed_responses.status3", "typed_payloads", "opaque_payloads", "objects_typed", "objects_unknown_rejected", "attrs_typed", "attrs_wrong_type_rejected", "attrs_opaque", "late_registration_decodes", "late_registration_named_decodes", "late_registration_object_decodes", "re_registration_decodes", "split_keys_without_prime_field_size", "concurrent_opaque_decodes"},
 		Families: []core.Family{
 			{Name: "ops-typed", N: nOf(27*2*3*5*3, 27*2*3*5*600), Run: func(c *core.Ctx, r *core.Rand, i int) {
 				op := &gen.Ops[i%27]
@@ -511,8 +514,9 @@ func concurrentOpaque(c *core.Ctx, r *core.Rand, i int) {
 	const G = 8
 	per := 40
 	type job struct {
-		in   []byte
-		resp bool
+		in     []byte
+		resp   bool
+		wantOp kmip.Operation
 	}
 	jobs := make([][]job, G)
 	for gi := 0; gi < G; gi++ {
@@ -538,12 +542,18 @@ func concurrentOpaque(c *core.Ctx, r *core.Rand, i int) {
 			}
 			// AddAttribute carries one attribute; use an unknown operation half of the time (opaque payload with attributes inside)
 			var t wire.Node
-			if r.Bool() {
+			var wantOp kmip.Operation
+			switch r.Intn(3) {
+			case 0:
 				t = reqTree(minor, int64(kmip.OperationAddAttribute), st(0, ch[0], ch[1]))
-			} else {
+			case 1:
 				t = reqTree(minor, int64(0x80000000|uint32(gi*1000+k)), st(0, ch...))
+			default:
+				// operations whose request is just an identifier: the goroutines decode DIFFERENT operations at the same time
+				wantOp = []kmip.Operation{kmip.OperationActivate, kmip.OperationDestroy, kmip.OperationArchive, kmip.OperationRecover, kmip.OperationObtainLease, kmip.OperationGetAttributeList}[(gi+k)%6]
+				t = reqTree(minor, int64(wantOp), st(0, ch[0]))
 			}
-			jobs[gi] = append(jobs[gi], job{in: wire.Gen(t)})
+			jobs[gi] = append(jobs[gi], job{in: wire.Gen(t), wantOp: wantOp})
 		}
 	}
 	type failure struct{ sig, what, in, out string }
@@ -569,6 +579,12 @@ func concurrentOpaque(c *core.Ctx, r *core.Rand, i int) {
 					fails <- failure{core.PanicSig(pv, stk), fmt.Sprintf("concurrent decode panicked: %v", pv), hx(j.in), stk}
 				case err != nil:
 					fails <- failure{"C06:concurrent:decode-error", "a message with custom attributes does not decode while other goroutines decode: " + err.Error(), hx(j.in), ""}
+				case j.wantOp != 0 && (len(m.BatchItem) != 1 || m.BatchItem[0].RequestPayload == nil || m.BatchItem[0].RequestPayload.Operation() != j.wantOp):
+					got := "nothing"
+					if len(m.BatchItem) == 1 && m.BatchItem[0].RequestPayload != nil {
+						got = fmt.Sprintf("%T", m.BatchItem[0].RequestPayload)
+					}
+					fails <- failure{"C06:concurrent:payload-of-another-operation", fmt.Sprintf("a batch item of operation %#x, decoded while other goroutines decode items of other operations, holds %s", uint32(j.wantOp), got), hx(j.in), ""}
 				case !bytes.Equal(re, j.in):
 					fails <- failure{"C06:concurrent:opaque-not-preserved", "a message decoded while other goroutines decode does not re-encode to its own bytes (opaque values mixed up between calls)", hx(j.in), hx(re)}
 				}
@@ -989,8 +1005,25 @@ func objectsCase(c *core.Ctx, r *core.Rand, i int, mode func(*core.Rand, int) *g
 		enc := encs[k/36]
 		obj := g.Object(ot.Code)
 		t, resp := build(carrier, obj, ot.Code)
-		in := Input(enc, t)
 		label := fmt.Sprintf("%s in %s", ot.Name, carriers[carrier])
+		if ot.Name == "SplitKey" && (i/(nTyped+45))%2 == 0 {
+			// the optional Prime Field Size (only meaningful for one split method) is left out, as a peer would
+			var drop func(n *wire.Node)
+			drop = func(n *wire.Node) {
+				for k := 0; k < len(n.Children); k++ {
+					if n.Children[k].Tag == kmip.TagPrimeFieldSize {
+						n.Children = append(n.Children[:k:k], n.Children[k+1:]...)
+						k--
+						continue
+					}
+					drop(&n.Children[k])
+				}
+			}
+			drop(&t)
+			label += " without Prime Field Size"
+			c.Count("split_keys_without_prime_field_size", 1)
+		}
+		in := Input(enc, t)
 		c.Distinct(core.Hash64("object", ot.Name, carriers[carrier], enc))
 		d, derr, ok := decodeMsg(c, enc, in, resp, label)
 		if !ok {
@@ -1012,6 +1045,15 @@ func objectsCase(c *core.Ctx, r *core.Rand, i int, mode func(*core.Rand, int) *g
 		}
 		if preserved(c, sig+":content", enc, in, d.msg, t, label) {
 			c.Count("objects_typed", 1)
+		}
+		// the parts of the object have their registered types too: the key material is held by the member that belongs
+		// to the key format (the Go value equals the one the message was written from)
+		if !strings.Contains(label, "without Prime Field Size") {
+			if diff := c01.GoDiff(obj, f.Interface(), "object"); diff != "" {
+				c.Violation(sig+":go-value-differs", fmt.Sprintf("%s: the decoded object differs from the original as a Go value although it re-encodes identically: %s", label, diff), map[string]any{"input": show(enc, in)})
+			} else {
+				c.Count("objects_compared_as_go_values", 1)
+			}
 		}
 		return
 	}
